@@ -23,3 +23,18 @@ check("C04", "exploration",
       "Bounded exhaustive enumeration against the real serializer: every body tuple with up to 4 (thorough 5) fields away from default over boundary alphabets (incl. sub-second times, payload shapes p / p||00 / 00||p / 999..65536 bytes) x 5 header variants. Oracles: byte equality with a layout written from the statement, digest = keccak(keccak(body)), independence from header and sub-second part, injectivity by a map over all produced bodies, no aliasing of returned bodies; every Marshal() output is replayed through layout tables extracted at check time from Messages.sol parseVM and governance.ral parseAndVerifyVAA (offsets, widths, body start, hash rule).",
       "Contract sources interpreted through a recognised syntactic subset (no solc/Ralph compiler); leaving the subset is exit 2.",
       "exhaustive boundary-product enumeration + replay through extracted contract layout tables", "DESIGN.md 5/C04", "E-ENUM + contract model")
+
+ENGINES += [
+    {"name": "mc", "path": "/verif/engine/mc", "serves_properties": ["C04", "C05", "C06"], "kind_free_text": "parallel product enumeration helpers"},
+    {"name": "proch", "path": "/verif/harness/proch", "serves_properties": ["C01", "C02", "C13", "C14"], "kind_free_text": "explicit-state BFS over event histories of the real Processor handlers (fresh real processor per history, state-key pruning, reference model + independent verifier on every transition)"},
+    {"name": "vtime", "path": "/verif/engine/vtime", "serves_properties": ["C01", "C02", "C08", "C09", "C10", "C13", "C14", "C18"], "kind_free_text": "virtual clock substituted for package time in selected repo files by import rewriting in the build overlay"},
+]
+
+check("C01", "model_checking",
+      "Explicit-state breadth-first search over event histories of the real Processor handlers (guardian-set updates, local observations incl. a same-id/later-timestamp variant, own-signature loopbacks delivered at any later point, gossiped observations: valid by every guardian of both sets and an outsider, forged, claiming another member's address, over another digest, for an unknown digest; 9 inbound signed-VAA variants signed by the previous/current/next set). Every history is replayed on a fresh real processor + store; one history is kept per canonical state key; in every reached state an independent decoder/verifier (own layout, own double keccak, ecrecover) checks every SignedVAAWithQuorum broadcast, every store change and every VAAQuorum event against the guardian set the statement prescribes. Sets of size 1..4 (thorough 1..6) with every own-key position fully, sizes 7/13/19 from a non-initial state (quorum-2 signatures already delivered) at three signer placements.",
+      "Handler invocations are atomic (single-goroutine Run loop); hooks are overlay-injected exported wrappers; p2p transport out of scope; store is badger in memory mode through the real db.Database type.",
+      "explicit-state BFS over handler-event histories of the real processor, state-key pruning, independent verifier as invariant", "DESIGN.md 5/C01", "E-BFS (proch)")
+check("C02", "model_checking",
+      "Explicit-state search over the real Processor handlers with a reference model of the publish point (maps written from the statement) compared with the real outputs on every transition: (A) free histories incl. governance-emitter observations, operator injection, re-observation, invalid traffic, set update; (B) permutation mode: every ordering of fixed event multisets (message + every signer subset for n=1..4 (5 thorough), with invalid traffic, duplicates, re-observation, a set update; n=13/19 at quorum-1/quorum/quorum+1 from a non-initial state) with a confluence check over the final states of all complete orderings; (C) histories without a local observation never publish.",
+      "Confluence is judged only where the node is a member of the set (the statement's 'its own included') and the multiset has no set update; operator injection is explored only after a set is known.",
+      "explicit-state BFS / all-orderings exploration of the real processor against a reference model of the publish point", "DESIGN.md 5/C02", "E-BFS (proch)")
